@@ -71,3 +71,12 @@ Proof.
   intros Hp H. unfold tgt_eval in H. injection H as <-. cbn [dt_miu dt_wt dt_did].
   rewrite bridge_t_miu, bridge_atr_lr by assumption. auto.
 Qed.
+
+(* ---- LogicalLinkController.activate: announced values come from entries no activation changes, the received values are
+   ASSIGNED (regenerated from the assignment statements: a setdefault or a swapped field does not get here) ---- *)
+Theorem bridge_announce local send_lsc : gen_announce_lsc local send_lsc = announce_lsc local send_lsc /\ gen_announce_guards = (128, 100, 0).
+Proof. split; reflexivity. Qed.
+Theorem bridge_cfg_assign sec miu lto wks lsc dpc ver :
+  let c := cfg_assign sec miu lto wks lsc dpc ver in
+  gen_cfg_assign sec miu lto wks lsc dpc ver = (c_ok c, c_send_miu c, c_recv_lto c, c_send_wks c, c_send_lsc c, c_dpc c, c_ver c).
+Proof. reflexivity. Qed.
